@@ -468,6 +468,11 @@ def run(chk, drv):
         "alt_<kind> counts the alternative encodings that differ from the reference bytes")
     chk.extra["trusted_base"] = ["google.protobuf 7.36.1 (upb) as the reference decoder/encoder (the oracle of the differential part)",
                                  "harness/reencode.py: that its rewrites are legal re-encodings (cross-checked on every case: the reference must read the alternative like the original)"]
+    chk.extra["partial"] = (
+        "proved: the model of the decoder is insensitive to every re-encoding the property lists (order, packing, chunking, padding, "
+        "duplication with last-wins, unknown fields). NOT proved: that google.protobuf equals the Lean spec decoder (sampled differential), "
+        "dump_sound (encoder vs Spec.decode) and load_complete (model decoder = Spec.decode); padding inside nested messages is proved level by level. "
+        "Not claimed (Legal): a second record for a singular message field (reference merges, betterproto replaces)")
     nb = 170 if quick else 1300
     nspec = 4000 if quick else 30000
     spec_lines, spec_wants = [], []
